@@ -561,7 +561,13 @@ class Taylor3D(object):
             return sum(fv * np.tensordot(u0[:self.powlrange[l]], coeff, axes=1)
                           for fv, (n, l, coeff) in zip(fval, self.coefflist))
         # otherwise, create a dictionary!
-        return {(n, l): np.tensordot(u0[:self.powlrange[l]], coeff, axes=1) for n, l, coeff in self.coefflist}
+        # (accumulate: the coefficient list may hold several entries with the same (n, l), e.g. after adding
+        # separated expansions)
+        val = {}
+        for n, l, coeff in self.coefflist:
+            v = np.tensordot(u0[:self.powlrange[l]], coeff, axes=1)
+            val[(n, l)] = val[(n, l)] + v if (n, l) in val else v
+        return val
 
     def nl(self):
         """
